@@ -6,9 +6,9 @@
    side (the relaxation receives it by non-const reference) and the level vectors levels[l]->tmp,
    levels[l+1]->x, levels[l+1]->b.  A, P, the partition and the LU buffer are not outputs of any kernel of
    the model (they are read-only by construction; the harness checks this bitwise on the library).
-   `chier_wf H n`: square levels with stored nonzero diagonal, conformal P, the partition invariant of a
-   hierarchy (a rank without fine rows owns no coarse unknowns: `guard_ok`), trans = 'T', and the LAPACK
-   assumption for the coarsest matrix (nonsingular, dgetrs returns a solution).
+   `chier_wf H n`: square levels with stored nonzero diagonal, conformal P, trans = 'T', and the LAPACK
+   assumption for the coarsest matrix (nonsingular, dgetrs returns a solution).  The row partitions are
+   arbitrary (any number of ranks, empty ranks allowed).
    Theorems 1-5 are also stated for ANY level interface that satisfies `level_ok` (any relaxation that is
    linear in (x, b), fixes solutions and does not read its scratch): C09_abstract_*. *)
 From Coq Require Import QArith Qcanon.
@@ -92,13 +92,13 @@ Theorem C09_poison_admissible (H : chier F) p :
 Proof. split; [apply poison_scratch_ok|apply fresh_scratch_ok]. Qed.
 
 (* 9. the concrete kernels (hybrid Jacobi / SOR / SSOR for every partition, weight, number of sweeps;
-      residual; guarded restriction; prolongation) satisfy the abstract interface *)
-Theorem C09_kernels_interface k omega sweeps n m A P parts cparts :
-  clevel_wf F zero n m A P parts cparts ->
+      residual; restriction; prolongation) satisfy the abstract interface *)
+Theorem C09_kernels_interface k omega sweeps n m A P parts :
+  clevel_wf F zero n m A P ->
   level_ok F zero add mul
     (mkLevel n m (c_relax F zero one add mul sub inv tiny k A omega parts sweeps)
                  (c_resid F zero add mul sub A)
-                 (c_restrict F zero add mul P parts cparts m)
+                 (c_restrict F zero add mul P m)
                  (c_prolong F zero add mul P)).
 Proof. intros; eapply concrete_level_ok; eassumption. Qed.
 
@@ -157,29 +157,38 @@ Proof.
   split; [|split; [reflexivity|]].
   - split; [|split; [reflexivity|intros r [<-|[]]; reflexivity]].
     unfold clevel_wf, mat_dims. repeat split; try (intros r [<-|[<-|[]]]; reflexivity).
-    + intros i Hi. destruct i as [|[|i]]; [| |lia]; intro E; apply (f_equal this) in E; vm_compute in E; discriminate.
-    + repeat constructor; intros; try reflexivity; discriminate.
+    intros i Hi. destruct i as [|[|i]]; [| |lia]; intro E; apply (f_equal this) in E; vm_compute in E; discriminate.
   - split.
     + intros u v Hu Hv E. destruct u as [|u0 [|? ?]]; try discriminate. destruct v as [|v0 [|? ?]]; try discriminate.
       change (length exAc) with 1%nat in *. rewrite !ex_mulmat in E. exact E.
     + intros b Hb. destruct b as [|b0 [|? ?]]; try discriminate. split; [reflexivity|]. apply ex_mulmat.
 Qed.
 
-(* D02b: without the partition invariant (rank 1 owns the coarse unknown but no fine row) the un-zeroed coarse b
-   leaks into the result: history-freedom is FALSE for such a layout.  Outside C08's hierarchies. *)
-Lemma C09_history_free_without_guard_refuted :
-  exists (H : chier Qc) ss ss' x b,
-    scratch_ok Qc 0 1 Qcplus Qcmult Qcminus Qcinv Qc_tiny H ss /\
-    scratch_ok Qc 0 1 Qcplus Qcmult Qcminus Qcinv Qc_tiny H ss' /\
-    this_of (q_cycle_x H ss x b) <> this_of (q_cycle_x H ss' x b).
+(* D02b, the mult_T BEFORE the fix c46a987 (no zeroing on a rank without fine rows): on a layout where rank 1 owns the
+   coarse unknown but no fine row the old content of the coarse b leaks into the result -- history-freedom was FALSE
+   there.  (The current mult_T zeroes on every rank: C09_history_free has no hypothesis on the partition.) *)
+Definition old_level (fparts cparts : list nat) : level Qc :=
+  mkLevel 2 1 (q_c_relax RJacobi exA0 (Q2Qc (1 # 2)) fparts 1) (q_c_resid exA0)
+              (c_restrict_old Qc 0 Qcplus Qcmult exP fparts cparts 1) (c_prolong Qc 0 Qcplus Qcmult exP).
+Lemma C09_history_free_old_mult_T_refuted :
+  exists ss ss' x b,
+    scr_ok Qc [old_level [2; 0]%nat [0; 1]%nat] ss /\ scr_ok Qc [old_level [2; 0]%nat [0; 1]%nat] ss' /\
+    this_of (cyc_x 0 (q_c_coarse true exAc) [old_level [2; 0]%nat [0; 1]%nat] ss x b) <>
+    this_of (cyc_x 0 (q_c_coarse true exAc) [old_level [2; 0]%nat [0; 1]%nat] ss' x b).
 Proof.
-  exists (exH RJacobi [2; 0]%nat [0; 1]%nat),
-         (q_fresh_scratch [mkCL exA0 exP [2; 0]%nat] exAc),
+  exists (q_fresh_scratch [mkCL exA0 exP [2; 0]%nat] exAc),
          (q_poison_scratch (Q2Qc 1000) [mkCL exA0 exP [2; 0]%nat] exAc),
          (qv [0; 0]%Z), (qv [1; 2]%Z).
-  split; [apply fresh_scratch_ok|]. split; [apply poison_scratch_ok|].
+  split; [vm_compute; repeat split|]. split; [vm_compute; repeat split|].
   vm_compute. discriminate.
 Qed.
+(* ... while on a layout that satisfies the partition invariant the old and the new mult_T agree *)
+Lemma C09_old_mult_T_same_on_hierarchies :
+  forall (F : Type) (zero one : F) (add mul sub : F -> F -> F) (opp : F -> F),
+    ring_theory zero one add mul sub opp (@eq F) ->
+    forall P fparts cparts m r bo, guard_ok fparts cparts -> sumn cparts = m -> len F m bo ->
+      c_restrict_old F zero add mul P fparts cparts m r bo = c_restrict F zero add mul P m r bo.
+Proof. intros; eapply c_restrict_old_clean; eassumption. Qed.
 
 (* the parameter order the sequential relax.hpp had before the fix, jacobi(A, b, x, tmp): the right-hand side is
    overwritten and the exact solution is not a fixed point *)
